@@ -18,6 +18,11 @@ from .mir import show
 SITES = [("repr::cnf::CnfHasher::new", "weighted_cnf"), ("repr::unit_prop::SATSolver::new", "clauses")]
 
 
+def _mentions_param(t):
+    """the term is computed from the closure's own argument (the literal)"""
+    return any(isinstance(x, tuple) and x and x[0] == "param" for x in [strip(t)] + list(mir.subterms(t)))
+
+
 def descend(prog, fn):
     out = []
     for k in prog.children(fn):
@@ -47,13 +52,23 @@ def run(prog):
                 ops = [strip(o) for o in r[4]]
                 lit = [o for o in ops if o[0] == "param" or (o[0] == "field" and strip(o[1])[0] == "param")]
                 w = [o for o in ops if o not in lit]
-                if len(lit) == 1 and len(w) == 1 and any(mir.is_call(x, "next") or "prime" in show(x).lower() for x in mir.subterms(w[0])):
+                if len(lit) == 1 and len(w) == 1 and (any(mir.is_call(x, "next") or "prime" in show(x).lower() for x in mir.subterms(w[0]))
+                                                      or _mentions_param(w[0]) or "u128" in (k.locals[0]["s"] if k.locals else "")):
                     pairs.append((k, w[0]))
         if not pairs:
             errs.append("?no (weight, literal) pair construction found for `%s`" % what)
         for k, w in pairs:
-            ok = mir.is_call(w, "unwrap") and mir.is_call(strip(w[2][0]), "next") and strip(strip(w[2][0])[2][0])[0] == "upvar"
-            if not ok:
+            w0 = w
+            while isinstance(w0, tuple) and w0 and w0[0] == "cast":
+                w0 = strip(w0[2])
+            ok = mir.is_call(w0, "unwrap") and mir.is_call(strip(w0[2][0]), "next") and strip(strip(w0[2][0])[2][0])[0] == "upvar"
+            if not ok and not _mentions_param(w) and not any(mir.is_call(x, "next") for x in mir.subterms(w)):
+                errs.append("?the weight of a literal occurrence is %s: neither a draw from the generator nor a function of the literal" % show(w)[:70])
+            elif not ok and _mentions_param(w):
+                errs.append("the weight of a literal occurrence is computed from the literal itself (%s), not drawn fresh from the shared "
+                            "prime generator: every occurrence of one literal gets the same prime, and the product of the primes no "
+                            "longer says in which clauses the remaining literals are grouped" % show(w)[:70])
+            elif not ok:
                 errs.append("the weight of a literal occurrence is %s, not a fresh `next()` of the shared prime generator: two "
                             "occurrences can share a prime and the product no longer determines the residual clauses" % show(w)[:70])
         out.append(inst("PR", "%s:fresh-primes" % path, VIOLATION if errs else OK, fn, None,
